@@ -2487,6 +2487,13 @@ def _range_bound(R, rpol, c):
         op, b = R[1], R[2]
         if (op == 'gt' and rpol) or (op == 'le' and not rpol):
             return b
+    # the emptiness test of a view `[c, b)` written on its length: (b − c) ≠ 0, (b − c) > 0, (b − c) ≥ 1   (c ≤ b by construction)
+    if isinstance(R[2], tuple) and R[2] and R[2][0] == 'i-' and R[2][2] == c and isinstance(R[3], tuple) and R[3][0] == 'ic':
+        op, k = R[1], R[3][1]
+        pos = (op == 'ne' and rpol and k == 0) or (op == 'eq' and not rpol and k == 0) or (op == 'gt' and rpol and k == 0) or \
+              (op == 'le' and not rpol and k == 0) or (op == 'ge' and rpol and k == 1) or (op == 'lt' and not rpol and k == 1)
+        if pos:
+            return R[2][1]
     return None
 
 
